@@ -10,7 +10,8 @@ use crate::spec::*;
 use crate::universe::*;
 
 /// One call of a history: method, argument, and the instance it is routed through
-/// (0 = original, k = k-th clone).
+/// (low 7 bits of `via`: 0 = original, k = k-th clone; bit 7: the call is made on a scoped thread
+/// spawned for it, where its panic propagates to the thread boundary instead of being caught).
 #[derive(Clone, Copy, Debug, PartialEq, Eq, PartialOrd, Ord, Hash)]
 pub struct Call {
     pub m: M,
@@ -94,6 +95,9 @@ pub struct RunOut {
     pub names: Snapshot,
     /// snapshot taken before verification
     pub final_snap: Snapshot,
+    /// a mock-induced panic happened on the original instance (without `std` this deliberately
+    /// disables its verification)
+    pub original_panicked: bool,
 }
 
 #[derive(Clone, Debug)]
@@ -181,13 +185,15 @@ pub fn run_history(config: &Config, history: &[Call], opts: RunOpts) -> Result<R
         let _ = catch(move || drop(original));
         return Err(fail("assembly", None, what));
     }
-    let n_clones = history.iter().map(|c| c.via).max().unwrap_or(0) as usize;
+    model.user_panic_arg = user_panic_arg();
+    let n_clones = history.iter().map(|c| c.via & 0x7f).max().unwrap_or(0) as usize;
     let clones: Vec<Unimock> = (0..n_clones).map(|_| original.clone()).collect();
 
     let mut preds = vec![];
     let mut steps = vec![];
     let mut mock_panics = vec![];
     let mut failure = None;
+    let mut original_panicked = false;
     for (i, c) in history.iter().enumerate() {
         let pred = model.call(c.m, c.x);
         if opts.stop_at_unspecified && matches!(pred, Pred::Unspecified(_)) {
@@ -195,12 +201,19 @@ pub fn run_history(config: &Config, history: &[Call], opts: RunOpts) -> Result<R
             preds.push(pred);
             break;
         }
-        let inst = if c.via == 0 {
+        let inst = if c.via & 0x7f == 0 {
             &original
         } else {
-            &clones[c.via as usize - 1]
+            &clones[(c.via & 0x7f) as usize - 1]
         };
-        let step = observe_call(inst, c.m, c.x);
+        let step = if c.via & 0x80 != 0 {
+            observe_call_on_thread(inst, c.m, c.x)
+        } else {
+            observe_call(inst, c.m, c.x)
+        };
+        if c.via & 0x7f == 0 && matches!(pred, Pred::MockPanic(..)) {
+            original_panicked = true;
+        }
         if (opts.in_scope)(&pred) {
             if let Err(what) = check_step(&pred, c.m, c.x, &step, &names) {
                 failure = Some(fail("step", Some(i), what));
@@ -259,6 +272,7 @@ pub fn run_history(config: &Config, history: &[Call], opts: RunOpts) -> Result<R
         verdict,
         names,
         final_snap,
+        original_panicked,
     })
 }
 
@@ -288,6 +302,10 @@ pub fn check_verdict(out: &RunOut) -> Result<(), String> {
         return Ok(());
     };
     if out.model.unspecified {
+        return Ok(());
+    }
+    if !cfg!(feature = "std") && out.original_panicked {
+        // no_std: a mock-induced panic on the original disables its verification (documented)
         return Ok(());
     }
     if !out.model.errors.is_empty() {
